@@ -22,6 +22,8 @@ import (
 //	adrpay  <net> <hash> <whash> <tapkey> <blinding key 33>   the ten address methods of payment.Payment
 //	adrscr  <pubkey 33> <redeem script>                payment.FromPublicKey / FromPayment hashes and scripts
 //	adrform <net> <type 0..4> <payload> <key 33>       S only: all clauses of C14 on one (network, type, payload, key)
+//	adrhist <s1> <s2>                                  history: decode s1, scribble over every returned slice, the same with
+//	                                                   s2, then decode both again; prints the LAST answers for s1 and s2
 
 var adrNets = []*network.Network{&network.Liquid, &network.Regtest, &network.Testnet}
 
@@ -49,8 +51,11 @@ func guard(f func() string) (s string) {
 
 func hxs(s string) string { return hx([]byte(s)) }
 
-func runAdrDec(t *Toks) string {
-	s := string(t.Hex())
+func runAdrDec(t *Toks) string { return adrDecLine(string(t.Hex())) }
+
+// adrDecLine runs every string-consuming function of package address on s; the result is a
+// pure function of s (the model computes it without any state)
+func adrDecLine(s string) string {
 	var b strings.Builder
 	b.WriteString("net=" + guard(func() string {
 		n, err := address.NetworkForAddress(s)
@@ -544,4 +549,115 @@ func init() {
 	runs["adrpay"] = runAdrPay
 	runs["adrscr"] = runAdrScr
 	runs["adrform"] = runAdrForm
+}
+
+// ---------- histories: decoded values belong to the caller ----------
+
+func scribble(b []byte) {
+	b = b[:cap(b)]
+	for i := range b {
+		b[i] ^= 0xa5
+	}
+	for i := range b {
+		b[i] = byte(0xc0 + i)
+	}
+}
+
+// adrScribbleAll calls every decoder entry point that returns byte slices on s and overwrites
+// every returned slice (all bytes, full capacity), as a caller that owns the values may do
+func adrScribbleAll(s string) {
+	guard(func() string {
+		if r, err := address.FromBase58(s); err == nil {
+			scribble(r.Data)
+		}
+		return ""
+	})
+	guard(func() string {
+		if r, err := address.FromBase58Confidential(s); err == nil {
+			scribble(r.Data)
+			scribble(r.PublicKey)
+		}
+		return ""
+	})
+	guard(func() string {
+		if r, err := address.FromBech32(s); err == nil {
+			scribble(r.Program)
+		}
+		return ""
+	})
+	guard(func() string {
+		if r, err := address.FromBlech32(s); err == nil {
+			scribble(r.PublicKey)
+			scribble(r.Program)
+		}
+		return ""
+	})
+	guard(func() string {
+		if r, err := address.FromConfidential(s); err == nil {
+			scribble(r.BlindingKey)
+			scribble(r.Script)
+		}
+		return ""
+	})
+	guard(func() string {
+		if sc, err := address.ToOutputScript(s); err == nil {
+			scribble(sc)
+		}
+		return ""
+	})
+}
+
+// adrHistory: first answers, scribbling, interleaving with the other string, last answers
+func adrHistory(s1, s2 string) (first1, first2, last1, last2 string) {
+	first1 = adrDecLine(s1)
+	adrScribbleAll(s1)
+	first2 = adrDecLine(s2)
+	adrScribbleAll(s2)
+	adrScribbleAll(s1)
+	last1 = adrDecLine(s1)
+	adrScribbleAll(s1)
+	last2 = adrDecLine(s2)
+	return
+}
+
+func runAdrHist(t *Toks) string {
+	s1, s2 := string(t.Hex()), string(t.Hex())
+	_, _, l1, l2 := adrHistory(s1, s2)
+	return l1 + " ;; " + l2
+}
+
+func genAdrHist(r *Rng, n int, w *bufio.Writer) {
+	for i := 0; i < n; i++ {
+		net := adrNets[r.Intn(3)]
+		ty := r.Intn(5)
+		if r.Chance(60) {
+			ty = 2 + r.Intn(3) // the segwit forms carry the longest decoded values
+		}
+		key := genKey33(r)
+		var k1, k2 []byte
+		if r.Chance(75) {
+			k1 = key
+		}
+		if r.Chance(75) {
+			k2 = key // sibling: another payload under the same blinding key
+		}
+		ty2 := ty
+		if r.Chance(25) {
+			ty2 = r.Intn(5)
+		}
+		s1, e1 := guardEnc(func() (string, error) { return adrEncode(net, ty, r.Bytes(adrPayloadLen(ty)), k1) })
+		s2, e2 := guardEnc(func() (string, error) { return adrEncode(net, ty2, r.Bytes(adrPayloadLen(ty2)), k2) })
+		if e1 != nil || e2 != nil {
+			s1, s2 = "lq1qqqq", "ex1qqqq"
+		}
+		if r.Chance(10) {
+			s2 = strings.ToUpper(s2)
+		}
+		fmt.Fprintf(w, "adrhist %s %s\n", hxs(s1), hxs(s2))
+	}
+}
+
+func init() {
+	runs["adrhist"] = runAdrHist
+	gens["adrhist"] = genAdrHist
 }
